@@ -141,6 +141,12 @@ inductive RespArg (E Es : Type) where
 inductive Act (E Es : Type) where
   | pubGet                                        -- the Get attempt: respond with the value, code Ok
   | respond (a : RespArg E Es) (c : Code)          -- `Self::respond(a, c, properties, client)`
+  | pubTo (topic payload : Str) (c : Code) (cd : Option (List Nat))   -- `Publication::new(topic, payload)` + code (+ correlate)
+/-- `Multipart` with its node iterator as the leaf paths it still yields -/
+structure Pend where
+  remaining : List Str
+  response_topic : Option Str
+  correlation_data : Option (List Nat)
 /-- the environment's answers for one inbound message -/
 structure Env (E Es M : Type) where
   pubGet : Except (PubErr E) Unit                 -- `client.publish(Publication::respond(Some(topic), .., get_by_key ..))`
@@ -273,6 +279,7 @@ def generate(lib_rs):
         return e
     ub = prep_update(ub)
     uctors = dict(ctors)
+    uctors["ResponseCode::Continue"] = "Code.Continue"
     for st_ in states:
         uctors[f"sm::States::{st_}"] = f"SmState.{st_}"
     for ev_ in events:
@@ -302,6 +309,78 @@ def generate(lib_rs):
                         "Except Unit Bool", tb, "panic", mut_self=True,
                         doc="`MqttClient::update`: reset when the link is down, one step of the protocol state machine (the "
                             "`match self.state.state()`), then `poll()`; the result is `poll`'s, mapped to \"settings changed\"")
+    # ---- iter_list(): one pass of its `while can_publish { .. }` loop
+    sig, text = M.find_fn(src, "iter_list")
+    lb = M.parse_block(text)
+    CANPUB = ("mcall", ("mcall", ("field", ("path", ["self"]), "mqtt"), "client", []), "can_publish", [("path", ["QoS", "AtLeastOnce"])])
+    if not (lb[0] == "block" and not lb[1] and lb[2] and lb[2][0] == "while" and lb[2][1] == CANPUB):
+        raise Unsupported("iter_list: `while self.mqtt.client().can_publish(QoS::AtLeastOnce) { .. }` expected")
+    wbody = lb[2][2]
+    st_ = wbody[1]
+    want_mid = [
+        ("let", ("pbind", "props"), ("array", [("mcall", ("path", ["code"]), "into", [])])),
+        ("let", ("pbind", "response"),
+         ("mcall", ("mcall", ("call", ("path", ["Publication", "new"]),
+                              [("mcall", ("mcall", ("field", ("field", ("path", ["self"]), "pending"), "response_topic"), "as_ref", []), "unwrap", []),
+                               ("mcall", ("path", ["path"]), "as_bytes", [])]),
+                    "properties", [("unary", "&", ("path", ["props"]))]), "qos", [("path", ["QoS", "AtLeastOnce"])])),
+        ("expr", ("if", ("iflet", [("ppath", ["Some"], [("pbind", "cd")])],
+                         ("unary", "&", ("field", ("field", ("path", ["self"]), "pending"), "correlation_data"))),
+                  ("block", [("semi", ("assign", "=", ("path", ["response"]), ("mcall", ("path", ["response"]), "correlate", [("path", ["cd"])])))], None),
+                  None)),
+        ("semi", ("mcall", ("mcall", ("mcall", ("field", ("path", ["self"]), "mqtt"), "client", []), "publish", [("path", ["response"])]), "unwrap", [])),
+    ]
+    if len(st_) != 5 or st_[1:] != want_mid:
+        raise Unsupported(f"iter_list: the publication is no longer built and sent as expected: {st_[1:]!r}")
+    first = st_[0]
+    # `let (path, node) = path.unwrap(); debug_assert!(node.is_leaf());` inside the `Some` branch: the iterator item is
+    # `Ok((path, node))` (capacity checked): dropped
+    ok = (first[0] == "let" and first[1] == ("ptuple", [("pbind", "code"), ("pbind", "path")]) and first[2][0] == "if"
+          and first[2][1] == ("iflet", [("ppath", ["Some"], [("pbind", "path")])],
+                              ("mcall", ("field", ("field", ("path", ["self"]), "pending"), "iter"), "next", []))
+          and first[2][2][1][:1] == [("let", ("ptuple", [("pbind", "path"), ("pbind", "node")]), ("mcall", ("path", ["path"]), "unwrap", []))])
+    if not ok:
+        raise Unsupported(f"iter_list: first statement {first!r}")
+    then_b = ("block", [x for x in first[2][2][1][1:] if not (x[0] == "semi" and x[1][0] == "macro" and x[1][1] == "debug_assert")], first[2][2][2])
+    first = ("let", first[1], ("if", ("iflet", first[2][1][1], ("call", ("path", ["iter_next"]), [])), then_b, first[2][3]))
+    pub = ("semi", ("call", ("path", ["publish_list"]),
+                    [("mcall", ("mcall", ("field", ("field", ("path", ["self"]), "pending"), "response_topic"), "as_ref", []), "unwrap", []),
+                     ("path", ["path"]), ("path", ["code"])]))
+
+    def brk(e):
+        if isinstance(e, tuple):
+            if e == ("break",):
+                return ("return", None)
+            if e == ("field", ("path", ["self"]), "state"):
+                return ("path", ["state"])
+            return tuple(brk(x) for x in e)
+        if isinstance(e, list):
+            return [brk(x) for x in e]
+        return e
+    inner = ("block", [("expr", ("if", ("path", ["can_pub"]),
+                                 brk(("block", [first, pub], wbody[2])),
+                                 ("block", [("semi", ("return", None))], None)))], None)
+    tb = Tables(self_type="Cl", ctors=uctors, fns={"String::new": ("([] : Str)", "pure")}, methods={
+        ("OptUnit", "unwrap"): {"kind": "unwrap"},
+        ("OptStr", "as_ref"): {"kind": "id", "ret": "OptStr"},
+        ("OptStr", "unwrap"): {"kind": "unwrap"},
+        ("Str", "into_inner"): {"kind": "id"},
+    }, consts={"can_pub": "canPub"}, vartypes={"state": "StateM", "path": "Str", "self": "Cl", ("Cl", "pending"): "Pend",
+                                            ("Pend", "response_topic"): "OptStr"},
+        structs={"Self": "(Cl E Es Pend X)"})
+    tb.effects = {
+        ("call", "iter_next"): {"fmt": "(match self.pending.remaining with | [] => (none, self) | p :: rest => "
+                                       "(some p, {{ self with pending := {{ self.pending with remaining := rest }} }}))", "pair": "self"},
+        ("call", "publish_list"): {"fmt": "((), {{ self with acts := self.acts ++ [Act.pubTo {0} {1} {2} self.pending.correlation_data] }})",
+                                   "pair": "self"},
+        ("mcall", "state", "process_event"): {"fmt": "(processEvent env self {0})", "pair": "self", "ret": "OptUnit"},
+    }
+    tb.lettypes = {}
+    out += translate_fn(("block", [], ("loop", inner)), "iter_list_body",
+                        "{E Es X : Type} (env : Env E Es Pend) (canPub : Bool) (self : Cl E Es Pend X)",
+                        "Unit", tb, "loopbody",
+                        doc="one pass of the `while self.mqtt.client().can_publish(..)` loop of `iter_list` (`canPub`: the loop "
+                            "condition; `.next`: go round again, `.ret`: the loop / function is left)")
     out.append("end MiniconfVerif.Gen.Mqtt")
     return "\n".join(out) + "\n"
 
